@@ -8,6 +8,10 @@ CONSTANTS
   NodeCounts = {1}
   SimCounts = {1}
   DefaultConc = 16
+  MaxCalls = 1
+  HistClients = {}
+  HistOutcomes = {}
+  Design = "asks"
   BaseOutcomes = {"accept", "reject", "treject", "malformed", "slowok", "late", "hang"}
 INVARIANTS Emit
 CHECK_DEADLOCK FALSE
